@@ -1050,6 +1050,15 @@ pub fn run(opts: &Opts) -> i32 {
     if let Some((i, v)) = &viol {
         violations = 1;
         let path = write_replay(v, derive(seed, *i));
+        // All other simulations have stopped now: replay the recorded scenario and schedule once more
+        // in quiescence. (While the batch runs, 16 simulations share the process; a regression that
+        // introduces process-wide state lets them disturb each other, which does not make the
+        // violation less real but can keep it from recurring.)
+        let alone = replay(&v.replay).map_or(false, |(c, _)| c == v.class);
+        println!(
+            "replay with every other simulation stopped: {}",
+            if alone { "reproduced" } else { "did not recur (outcome depends on process-wide state outside the simulator)" }
+        );
         report_violation(v, &path);
         code = 1;
     }
